@@ -563,6 +563,29 @@ func c04R4(c *Ctx) {
 	for _, du := range undos {
 		successKeepsResult(c, "C04.R4", fn, du, "release")
 	}
+	// … and hands back nothing else: a repeated ADD is given the address the pod's record already owns
+	// (C01), so the allocation is released only when no earlier ADD recorded the pod
+	var rec types.Object
+	if getRes := p.Method(daemonPkg, "networkService", "getPodResource"); getRes != nil {
+		for _, cs := range p.CallsTo([]*FuncInfo{fn}, getRes) {
+			if _, l := assignedFromCall(fn, cs.Call); len(l) >= 1 && l[0] != nil {
+				rec = l[0]
+			}
+		}
+	}
+	// (stated for the roll-back of the steps after a successful allocation; when Allocate itself fails its
+	// partial result is handed back at once, as the pool does for a cancelled request)
+	nRel := 0
+	for _, du := range undos {
+		nRel++
+		key := "AllocIP: a later step's failure hands the allocation back only when no earlier ADD recorded the pod"
+		if rec == nil {
+			c.Undec("C04.R4", key, p.Pos(du.undo), fn.Key(), "rec, err := n.getPodResource(pod)", "stored record not recognised")
+			continue
+		}
+		c.Require("C04.R4", key, fn, du.undo, "len("+rec.Name()+".Resources) == 0", nil)
+	}
+	c.Floor("C04.R4", "deferred roll-backs of the allocation in AllocIP", 1, nRel)
 }
 
 // lastFallible names the call whose error leads to return r (for stable obligation keys).
